@@ -11,6 +11,14 @@ Checked on every converted form, from the parsed XForm only (ElementTree) plus t
 Nothing is computed with pyxform: paths are resolved by walking the parsed instance, the expected sibling names are
 read from the source sheet (shared reader in bounded/oracles/C03.py).
 
+Generated group structures (round 3): `begin loop over <list>` stands, by the XLSForm convention, for a group named
+after the loop holding one group per choice of the list, each with its own copy of the loop's rows.  The source-side
+reader rewrites such a sheet into the explicit groups it stands for (expand_loops, from the workbook only) so the
+"ambiguous names are rejected" clause is stated for them too, and loop_family() puts loops (1-3 columns, every kind of
+child row - plain, %(label)s, translated, bind/control columns, selects, actions, nested sections - alone, in pairs
+and all together) at every nesting depth, where "no node is bound twice" / "no two controls share a ref" are checked
+on as many copies of each child as the list has choices.
+
 Domain (triage, see FINDINGS_C02.md): the property speaks of the refs the converter derives for controls from the
 survey tree.  A `body::ref` / `control::ref` cell is the author writing the control's ref attribute verbatim (the
 documented `body::<attribute>` pass-through); such a ref is the author's, not a generated one, and the property text
@@ -99,10 +107,99 @@ def author_refs(wb):
     return out
 
 
+_LOOP_BEGIN = re.compile(r"^begin[ _]loop (?:over )?(\S+)$", re.I)
+_LOOP_END = re.compile(r"^end[ _]loop$", re.I)
+_SECTION_BEGIN = re.compile(r"^begin[ _](group|repeat|lgroup|looped group)\b", re.I)
+_SECTION_END = re.compile(r"^end[ _](group|repeat|lgroup|looped group)$", re.I)
+
+
+def _sheet(wb, name):
+    return next((k for k in wb if str(k).strip().lower() == name), None)
+
+
+def _col(headers, *names):
+    for i, h in enumerate(headers):
+        if str(h or "").strip().lower().replace(" ", "_") in names:
+            return i
+    return None
+
+
+def expand_loops(wb):
+    """The workbook with every `begin loop over <list>` ... `end loop` written out as the groups it stands for:
+    `begin group <loop name>`, then per choice of <list> (sheet order) `begin group <choice name>` + the loop's rows +
+    `end group`, then `end group`.  Source text only.  None when the sheet has no loop or the loop cannot be read
+    this way (unknown list, unbalanced rows, placeholder in a name, a choice called 'none' - which XLSForm tools
+    treat specially)."""
+    if wb is None:
+        return None
+    sv, ch = _sheet(wb, "survey"), _sheet(wb, "choices")
+    if sv is None or ch is None:
+        return None
+    headers, rows = wb[sv]
+    ti, ni = _col(headers, "type"), _col(headers, "name")
+    cheaders, crows = wb[ch]
+    li, ci = _col(cheaders, "list_name"), _col(cheaders, "name")
+    if None in (ti, ni, li, ci):
+        return None
+
+    def cell(row, i):
+        v = row[i] if i < len(row) else None
+        return None if v is None or not str(v).strip() else " ".join(str(v).split())
+
+    def blank(t, name):
+        r = [None] * len(headers)
+        r[ti], r[ni] = t, name
+        return r
+
+    rows = [list(r) for r in rows]
+    if not any(_LOOP_BEGIN.match(cell(r, ti) or "") for r in rows):
+        return None
+    for _ in range(50):
+        b = None
+        for i, r in enumerate(rows):
+            t = cell(r, ti) or ""
+            if _LOOP_BEGIN.match(t):
+                b = i
+            elif _LOOP_END.match(t):
+                if b is None:
+                    return None
+                break
+        else:
+            if b is not None:
+                return None
+            out = WB(wb)
+            out[sv] = (headers, rows)
+            return out
+        e = i
+        body, depth = rows[b + 1:e], 0
+        for r in body:
+            t = cell(r, ti) or ""
+            depth += 1 if _SECTION_BEGIN.match(t) else -1 if _SECTION_END.match(t) else 0
+            if depth < 0 or "%(" in (cell(r, ni) or ""):
+                return None
+        lst = _LOOP_BEGIN.match(cell(rows[b], ti)).group(1)
+        cols = [cell(c, ci) for c in crows if cell(c, li) == lst]
+        if depth or not cols or None in cols or "none" in cols or cell(rows[b], ni) is None:
+            return None
+        head = list(rows[b]) + [None] * (len(headers) - len(rows[b]))
+        head[ti] = "begin group"
+        new = [head]
+        for c in cols:
+            new += [blank("begin group", c), *[list(r) for r in body], blank("end group", None)]
+        new.append(blank("end group", None))
+        rows[b:e + 1] = new
+    return None
+
+
 def check(case, res, ctx):
     vs = []
     wb = source_wb(case)
     tree = survey_tree(wb)
+    if not tree.ok:
+        # a sheet with `begin loop over <list>` is read as the explicit groups it stands for
+        unrolled = expand_loops(wb)
+        if unrolled is not None:
+            tree = survey_tree(unrolled)
     authored = author_refs(wb)
 
     # --- source side: exact duplicate sibling names (generated helpers included) must be rejected
@@ -395,6 +492,152 @@ def override_family():
     return out
 
 
+# --- generated group structures: `begin loop over <list>` (one group per choice, a copy of the rows in each) ---------
+
+LOOP_LISTS = {
+    "one": [("car", "Car")],
+    "two": [("car", "Car"), ("bike", "Bike")],
+    "three": [("a", "A"), ("a2", "A2"), ("b", "B")],          # names that are prefixes of each other
+    "mixed": [("Car", "Car"), ("Bike_1", "Bike 1"), ("x.y", "X Y")],
+    "none": [("car", "Car"), ("none", "None"), ("bike", "Bike")],
+}
+LOOP_WRAPS = {"root": [], "g": ["group"], "r": ["repeat"], "rg": ["repeat", "group"], "gr": ["group", "repeat"],
+              "rgr": ["repeat", "group", "repeat"]}
+# kinds of rows a loop may hold; every kind is one row or one balanced block of rows.  q0 lives outside the loop.
+LOOP_CHILDREN = {
+    "plain-text": [{"type": "text", "name": "pt", "label": "Plain"}],
+    "plain-hint": [{"type": "integer", "name": "ph", "label": "How many are working?", "hint": "Count them"}],
+    "plain-note": [{"type": "note", "name": "pn", "label": "Read this"}],
+    "plain-default": [{"type": "integer", "name": "pd", "label": "D", "default": "3"}],
+    "plain-date": [{"type": "date", "name": "pe", "label": "When"}],
+    "subst-label": [{"type": "integer", "name": "sl", "label": "How many %(label)s?"}],
+    "subst-hint": [{"type": "text", "name": "sh", "label": "Plain", "hint": "About %(name)s"}],
+    "lang-label": [{"type": "text", "name": "ll", "label::en": "E", "label::fr": "F"}],
+    "lang-subst": [{"type": "text", "name": "ls", "label::en": "E %(label)s", "label::fr": "F %(label)s"}],
+    "bind-cols": [{"type": "text", "name": "bc", "label": "B", "relevant": "${q0} = 1", "required": "yes",
+                   "constraint": ". != 'x'"}],
+    "readonly": [{"type": "text", "name": "ro", "label": "R", "readonly": "yes"}],
+    "appearance": [{"type": "text", "name": "ap", "label": "A", "appearance": "multiline"}],
+    "select1": [{"type": "select_one l", "name": "s1", "label": "S"}],
+    "select-other": [{"type": "select_multiple l or_other", "name": "so", "label": "S"}],
+    "calculate": [{"type": "calculate", "name": "ca", "calculation": "1 + 1"}],
+    "dyn-default": [{"type": "integer", "name": "dd", "label": "D", "default": "1 + 1"}],
+    "trigger": [{"type": "text", "name": "tr", "label": "X", "calculation": "now()", "trigger": "${q0}"}],
+    "image": [{"type": "image", "name": "im", "label": "I"}],
+    "group": [{"type": "begin group", "name": "ng", "label": "NG"}, {"type": "text", "name": "nq", "label": "NQ"},
+              {"type": "end group"}],
+    "repeat-count": [{"type": "begin repeat", "name": "nr", "label": "NR", "repeat_count": "${q0} + 1"},
+                     {"type": "text", "name": "nq", "label": "NQ"}, {"type": "end repeat"}],
+}
+
+
+def _choices(lists, langs=False):
+    if langs:
+        return (["list_name", "name", "label::en", "label::fr"],
+                [["l", "c1", "C1", "D1"], ["l", "c2", "C2", "D2"]]
+                + [[ln, n, lb, lb + " (fr)"] for ln, items in lists.items() for n, lb in items])
+    return (["list_name", "name", "label"],
+            CHOICES[1] + [[ln, n, lb] for ln, items in lists.items() for n, lb in items])
+
+
+def loop_case(name, wrap, lists, loops, langs=False, over="over ", settings=None):
+    """`loops` = [(loop name, list name, [child kind, ...])], written one after the other inside `wrap`."""
+    rows = [{"type": "integer", "name": "q0", "label": "Q0"}]
+    for j, w in enumerate(wrap):
+        rows.append({"type": f"begin {w}", "name": f"w{j}", "label": f"W{j}"})
+    for lname, lst, kinds in loops:
+        rows.append({"type": f"begin loop {over}{lst}", "name": lname, "label": "Loop"})
+        for k in kinds:
+            rows += [dict(r) for r in LOOP_CHILDREN[k]] if isinstance(k, str) else [dict(r) for r in k]
+        rows.append({"type": "end loop"})
+        rows.append({"type": "text", "name": f"after_{lname}", "label": "After"})
+    for w in reversed(wrap):
+        rows.append({"type": f"end {w}"})
+    sheets = {"choices": _choices(lists, langs)}
+    if settings:
+        sheets["settings"] = settings
+    return _md(name, rows, **sheets)
+
+
+def loop_family(tier):
+    out = []
+    kinds = list(LOOP_CHILDREN)
+    # all together: nested sections and a ${..}-named trigger target are only unambiguous with a one-column list
+    full = [k for k in kinds if k not in ("group", "repeat-count", "trigger")]
+    thorough = tier != "quick"
+    # every kind alone and all kinds together: every list, every wrap
+    wraps = list(LOOP_WRAPS) if thorough else ["root", "g", "r", "rg"]
+    for wk in wraps:
+        for lk, items in LOOP_LISTS.items():
+            for langs in (False, True):
+                if langs and not thorough and (wk != "root" or lk not in ("two", "one")):
+                    continue
+                tag = f"{wk}-{lk}{'-langs' if langs else ''}"
+                if lk == "one":
+                    out.append(loop_case(f"c02-loop-{tag}-everything", LOOP_WRAPS[wk], {"veh": items},
+                                         [("owned", "veh", kinds)], langs))
+                for k in kinds:
+                    out.append(loop_case(f"c02-loop-{tag}-{k}", LOOP_WRAPS[wk], {"veh": items}, [("owned", "veh", [k])], langs))
+                out.append(loop_case(f"c02-loop-{tag}-all", LOOP_WRAPS[wk], {"veh": items}, [("owned", "veh", full)], langs))
+                out.append(loop_case(f"c02-loop-{tag}-all-rev", LOOP_WRAPS[wk], {"veh": items},
+                                     [("owned", "veh", full[::-1])], langs))
+    # every ordered pair of kinds (position in the loop matters to whoever builds the copies)
+    pair_ctx = [("root", "two")] + ([("root", "three"), ("rg", "two"), ("rg", "none"), ("gr", "one")] if thorough else [])
+    for wk, lk in pair_ctx:
+        for a, b in itertools.permutations(kinds, 2):
+            if not thorough and a > b and "plain" not in a and "plain" not in b:
+                continue
+            out.append(loop_case(f"c02-loop-pair-{wk}-{lk}-{a}+{b}", LOOP_WRAPS[wk], {"veh": LOOP_LISTS[lk]},
+                                 [("owned", "veh", [a, b])]))
+    # the same kind of row several times in one loop (distinct names), and a lone loop without `over`
+    for lk in ("two", "three"):
+        many = [[{"type": "text", "name": f"p{i}", "label": "Same words"}] for i in range(4)]
+        out.append(loop_case(f"c02-loop-same-words-{lk}", [], {"veh": LOOP_LISTS[lk]}, [("owned", "veh", many)]))
+        mixed = [[{"type": "integer", "name": f"m{i}", "label": "Same words" if i % 2 else "Of %(label)s"}] for i in range(5)]
+        out.append(loop_case(f"c02-loop-alternating-{lk}", ["group"], {"veh": LOOP_LISTS[lk]}, [("owned", "veh", mixed)]))
+        out.append(loop_case(f"c02-loop-no-over-{lk}", ["repeat"], {"veh": LOOP_LISTS[lk]},
+                             [("owned", "veh", ["plain-text", "subst-label"])], over=""))
+    # several loops in one form: over different lists, and over one list (column names then clash survey-wide)
+    two = {"veh": LOOP_LISTS["two"], "pets": [("cat", "Cat"), ("dog", "Dog"), ("emu", "Emu")]}
+    for wk in ("root", "rg"):
+        for ks in (["plain-text"], ["plain-hint", "subst-label"], ["select1", "plain-note", "bind-cols"]):
+            tag = f"{wk}-{'+'.join(ks)}"
+            out.append(loop_case(f"c02-loop-two-lists-{tag}", LOOP_WRAPS[wk], two,
+                                 [("owned", "veh", ks), ("kept", "pets", ks)]))
+            out.append(loop_case(f"c02-loop-same-list-{tag}", LOOP_WRAPS[wk], two,
+                                 [("owned", "veh", ks), ("kept", "veh", ks)]))
+    # a loop inside a loop (the inner section names repeat per outer column unless the outer list has one choice)
+    inner = [{"type": "begin loop over pets", "name": "kept", "label": "Kept"},
+             {"type": "integer", "name": "n", "label": "How many?"},
+             {"type": "integer", "name": "n2", "label": "How many %(label)s?"}, {"type": "end loop"}]
+    for lk in ("one", "two"):
+        out.append(loop_case(f"c02-loop-nested-{lk}", [], {"veh": LOOP_LISTS[lk], "pets": two["pets"]},
+                             [("owned", "veh", ["plain-text", inner])]))
+    # names that must be rejected: two rows of one loop with one name, a generated helper's name taken, a choice
+    # name used twice in the looped list (possible with allow_choice_duplicates)
+    dups = {
+        "exact": [[{"type": "text", "name": "k", "label": "K"}], [{"type": "integer", "name": "k", "label": "K2"}]],
+        "exact-apart": [[{"type": "text", "name": "k", "label": "K"}], "plain-note",
+                        [{"type": "text", "name": "k", "label": "K"}]],
+        "other": ["select-other", [{"type": "text", "name": "so_other", "label": "K"}]],
+        "count": [[{"type": "begin repeat", "name": "nr", "label": "NR", "repeat_count": "${q0} + 1"},
+                   {"type": "text", "name": "nq", "label": "NQ"}, {"type": "end repeat"}],
+                  [{"type": "integer", "name": "nr_count", "label": "K"}]],
+        "distinct": [[{"type": "text", "name": "k", "label": "K"}], [{"type": "integer", "name": "k2", "label": "K2"}]],
+    }
+    for dk, ks in dups.items():
+        for lk in ("one", "two"):
+            for wk in ("root", "r"):
+                out.append(loop_case(f"c02-loop-dup-{dk}-{lk}-{wk}", LOOP_WRAPS[wk], {"veh": LOOP_LISTS[lk]},
+                                     [("owned", "veh", ks)]))
+    allow = (["form_id", "allow_choice_duplicates"], [["f", "yes"]])
+    for items in ([("car", "Car"), ("car", "Car 2")], [("car", "Car"), ("bike", "Bike"), ("car", "Car")]):
+        for ks in (["plain-text"], ["subst-label"]):
+            out.append(loop_case(f"c02-loop-dup-column-{len(items)}-{ks[0]}", [], {"veh": items},
+                                 [("owned", "veh", ks)], settings=allow))
+    return out
+
+
 def cases(tier, seed):
     rnd = random.Random(seed * 104729 + 2)
     out = []
@@ -407,4 +650,5 @@ def cases(tier, seed):
     out += duplicate_family()
     out += entity_family()
     out += override_family()
+    out += loop_family(tier)
     return out
